@@ -181,7 +181,10 @@ func runProperty(def *PropertyDef, tier, root, verif, only, mutant string, seed 
 				nov, nlog, nerr := normalize(root, overlay, baseline)
 				if nerr != nil {
 					c.Note("normalisation pre-pass failed: %v", nerr)
-				} else if len(nlog) > 0 {
+				} else {
+					if len(nlog) == 0 {
+						nlog = []string{"no call to inline; private functions and fields that were renamed are looked up through the baseline symbol table"}
+					}
 					if d := os.Getenv("IPCHECK_DUMP"); d != "" {
 						os.MkdirAll(d, 0o755)
 						for name, b := range nov {
